@@ -386,6 +386,7 @@ Example expand_is_flatten_counterexample :
   let t := TArr 1 BAny [TXArr BInt []] in
   flatten (expand_tree_top t) <> flat_map expand (flatten t).
 Proof. cbv. discriminate. Qed.
+Print Assumptions expand_is_flatten_counterexample.
 
 Lemma xelem_ok_matches bt s : xelem_ok bt s = true ->
   tree_matches bt (TVal s false) = true /\ scalar_ok s = true.
@@ -718,3 +719,295 @@ Proof.
   repeat split; assumption.
 Qed.
 Print Assumptions C16_adapter_all_exact.
+
+(* ====================================================================== *)
+(* Part 4: the monitor is sound: what it reads back flattens to the input  *)
+(* ====================================================================== *)
+
+Definition parse_sound_at (f : nat) : Prop :=
+  forall evs t rest, parse_tree f evs = Some (t, rest) -> evs = flatten t ++ rest /\ norm t = t.
+
+Lemma parse_elems_sound f len bt : parse_sound_at f ->
+  forall g evs acc t rest,
+    parse_elems f len bt g evs acc = Some (t, rest) ->
+    exists es, t = TArr len bt (rev acc ++ es) /\
+               evs = flatten_elems es ++ EArrEnd :: rest /\
+               map norm es = es.
+Proof.
+  intros IHf. induction g as [|g IHg]; intros evs acc t rest H.
+  - rewrite parse_elems_O in H. discriminate H.
+  - rewrite parse_elems_S in H.
+    assert (Hstep : forall evs',
+      match parse_tree f evs' with
+      | Some (t0, r') => parse_elems f len bt g r' (t0 :: acc)
+      | None => None
+      end = Some (t, rest) ->
+      exists es, t = TArr len bt (rev acc ++ es) /\
+                 evs' = flatten_elems es ++ EArrEnd :: rest /\ map norm es = es).
+    { intros evs' H'. destruct (parse_tree f evs') as [[t1 r1]|] eqn:E; [|discriminate H'].
+      apply IHf in E. destruct E as [E1 E2]. apply IHg in H'. destruct H' as (es & Ht & Hr & Hn).
+      exists (t1 :: es). split; [|split].
+      - rewrite Ht. cbn [rev]. rewrite <- app_assoc. reflexivity.
+      - rewrite flatten_elems_cons, <- app_assoc, <- Hr. exact E1.
+      - cbn [map]. rewrite E2, Hn. reflexivity. }
+    destruct evs as [|h r]; [apply Hstep; exact H|].
+    destruct h; try (apply Hstep; exact H).
+    inversion H; subst t rest. exists []. rewrite app_nil_r. repeat split.
+Qed.
+
+Lemma parse_members_sound f len bt : parse_sound_at f ->
+  forall g evs acc t rest,
+    parse_members f len bt g evs acc = Some (t, rest) ->
+    exists ms, t = TObj len bt (rev acc ++ ms) /\
+               evs = flatten_members ms ++ EObjEnd :: rest /\
+               map (fun m => (fst m, norm (snd m))) ms = ms.
+Proof.
+  intros IHf. induction g as [|g IHg]; intros evs acc t rest H.
+  - rewrite parse_members_O in H. discriminate H.
+  - rewrite parse_members_S in H.
+    assert (Hstep : forall k b evs',
+      match parse_tree f evs' with
+      | Some (t0, r') => parse_members f len bt g r' ((k, b, t0) :: acc)
+      | None => None
+      end = Some (t, rest) ->
+      exists ms, t = TObj len bt (rev acc ++ ms) /\
+                 key_event k b :: evs' = flatten_members ms ++ EObjEnd :: rest /\
+                 map (fun m => (fst m, norm (snd m))) ms = ms).
+    { intros k b evs' H'. destruct (parse_tree f evs') as [[t1 r1]|] eqn:E; [|discriminate H'].
+      apply IHf in E. destruct E as [E1 E2]. apply IHg in H'. destruct H' as (ms & Ht & Hr & Hn).
+      exists ((k, b, t1) :: ms). split; [|split].
+      - rewrite Ht. cbn [rev]. rewrite <- app_assoc. reflexivity.
+      - rewrite flatten_members_cons, <- app_comm_cons, <- app_assoc, <- Hr, E1. reflexivity.
+      - cbn [map fst snd]. rewrite E2, Hn. reflexivity. }
+    destruct evs as [|h r]; [discriminate H|].
+    destruct h; try discriminate H.
+    + inversion H; subst t rest. exists []. rewrite app_nil_r. repeat split.
+    + apply (Hstep k false). exact H.
+    + apply (Hstep k true). exact H.
+Qed.
+
+Theorem parse_tree_sound : forall fuel evs t rest,
+  parse_tree fuel evs = Some (t, rest) -> evs = flatten t ++ rest /\ norm t = t.
+Proof.
+  induction fuel as [|f IH]; intros evs t rest H.
+  - rewrite parse_tree_O in H. discriminate H.
+  - rewrite parse_tree_S in H.
+    destruct evs as [|h r]; [discriminate H|].
+    destruct h as [sc|b|len bt| |len bt| |k|k|bt es|bt ms];
+      try discriminate H; try (inversion H; subst; split; reflexivity).
+    + inversion H; subst. split; destruct sc; reflexivity.
+    + apply (parse_elems_sound f len bt IH) in H. destruct H as (es & Ht & Hr & Hn).
+      cbn [rev app] in Ht. subst t. rewrite flatten_arr. cbn [app]. rewrite <- app_assoc. cbn [app].
+      split; [rewrite Hr; reflexivity|]. cbn [norm]. rewrite Hn. reflexivity.
+    + apply (parse_members_sound f len bt IH) in H. destruct H as (ms & Ht & Hr & Hn).
+      cbn [rev app] in Ht. subst t. rewrite flatten_obj. cbn [app]. rewrite <- app_assoc. cbn [app].
+      split; [rewrite Hr; reflexivity|]. cbn [norm]. rewrite Hn. reflexivity.
+Qed.
+Print Assumptions parse_tree_sound.
+
+(* fuel monotonicity: more fuel never changes a successful parse *)
+Definition parse_mono_at (f : nat) : Prop :=
+  forall f' evs r, parse_tree f evs = Some r -> (f <= f')%nat -> parse_tree f' evs = Some r.
+
+Lemma parse_elems_mono f len bt : parse_mono_at f ->
+  forall g f' g' evs acc r,
+    parse_elems f len bt g evs acc = Some r -> (f <= f')%nat -> (g <= g')%nat ->
+    parse_elems f' len bt g' evs acc = Some r.
+Proof.
+  intros IHf. induction g as [|g IHg]; intros f' g' evs acc r H Hf Hg.
+  - rewrite parse_elems_O in H. discriminate H.
+  - destruct g' as [|g']; [lia|]. rewrite parse_elems_S in *.
+    assert (Hstep :
+      match parse_tree f evs with
+      | Some (t0, r') => parse_elems f len bt g r' (t0 :: acc)
+      | None => None
+      end = Some r ->
+      match parse_tree f' evs with
+      | Some (t0, r') => parse_elems f' len bt g' r' (t0 :: acc)
+      | None => None
+      end = Some r).
+    { intros H'. destruct (parse_tree f evs) as [[t1 r1]|] eqn:E; [|discriminate H'].
+      rewrite (IHf f' evs _ E Hf). apply IHg; [exact H'|exact Hf|lia]. }
+    destruct evs as [|h tl]; [apply Hstep; exact H|].
+    destruct h; try (apply Hstep; exact H). exact H.
+Qed.
+
+Lemma parse_members_mono f len bt : parse_mono_at f ->
+  forall g f' g' evs acc r,
+    parse_members f len bt g evs acc = Some r -> (f <= f')%nat -> (g <= g')%nat ->
+    parse_members f' len bt g' evs acc = Some r.
+Proof.
+  intros IHf. induction g as [|g IHg]; intros f' g' evs acc r H Hf Hg.
+  - rewrite parse_members_O in H. discriminate H.
+  - destruct g' as [|g']; [lia|]. rewrite parse_members_S in *.
+    assert (Hstep : forall k b evs',
+      match parse_tree f evs' with
+      | Some (t0, r') => parse_members f len bt g r' ((k, b, t0) :: acc)
+      | None => None
+      end = Some r ->
+      match parse_tree f' evs' with
+      | Some (t0, r') => parse_members f' len bt g' r' ((k, b, t0) :: acc)
+      | None => None
+      end = Some r).
+    { intros k b evs' H'. destruct (parse_tree f evs') as [[t1 r1]|] eqn:E; [|discriminate H'].
+      rewrite (IHf f' evs' _ E Hf). apply IHg; [exact H'|exact Hf|lia]. }
+    destruct evs as [|h tl]; [discriminate H|].
+    destruct h; try discriminate H.
+    + exact H.
+    + apply Hstep. exact H.
+    + apply Hstep. exact H.
+Qed.
+
+Theorem parse_tree_mono : forall fuel fuel' evs r,
+  parse_tree fuel evs = Some r -> (fuel <= fuel')%nat -> parse_tree fuel' evs = Some r.
+Proof.
+  induction fuel as [|f IH]; intros fuel' evs r H Hle.
+  - rewrite parse_tree_O in H. discriminate H.
+  - destruct fuel' as [|f']; [lia|]. rewrite parse_tree_S in *.
+    destruct evs as [|h tl]; [discriminate H|].
+    destruct h as [sc|b|len bt| |len bt| |k|k|bt es|bt ms]; try discriminate H; try exact H.
+    + apply (parse_elems_mono f len bt IH f f' f'); [exact H|lia|lia].
+    + apply (parse_members_mono f len bt IH f f' f'); [exact H|lia|lia].
+Qed.
+Print Assumptions parse_tree_mono.
+
+(* trees (in normal form) are exactly the streams accepted by the monitor *)
+Theorem stream_tree_iff : forall evs t,
+  stream_tree evs = Some t <-> evs = flatten t /\ norm t = t.
+Proof.
+  intros evs t. split.
+  - unfold stream_tree. intro H.
+    destruct (parse_tree (S (length evs)) evs) as [[t1 r1]|] eqn:E; [|discriminate H].
+    destruct r1; [|discriminate H]. inversion H; subst t1.
+    apply parse_tree_sound in E. rewrite app_nil_r in E. exact E.
+  - intros [He Hn]. subst evs. rewrite stream_tree_flatten, Hn. reflexivity.
+Qed.
+Print Assumptions stream_tree_iff.
+
+Theorem contract_ok_iff : forall evs,
+  contract_ok evs = true <-> exists t, evs = flatten t /\ norm t = t /\ wf_tree t = true.
+Proof.
+  intro evs. unfold contract_ok. split.
+  - destruct (stream_tree evs) as [t|] eqn:E; [|discriminate].
+    intro Hwf. apply stream_tree_iff in E. destruct E as [E1 E2]. exists t. repeat split; assumption.
+  - intros (t & E1 & E2 & Hwf). rewrite (proj2 (stream_tree_iff evs t) (conj E1 E2)). exact Hwf.
+Qed.
+Print Assumptions contract_ok_iff.
+
+(* ====================================================================== *)
+(* Part 5: expanding a whole stream (a plain visitor behind the adapter)   *)
+(* ====================================================================== *)
+
+(* expansion of every extended event / reference in a tree *)
+Fixpoint expand_tree (t : tree) : tree :=
+  match t with
+  | TVal s _ => TVal s false
+  | TArr len bt es => TArr len bt (map expand_tree es)
+  | TObj len bt ms => TObj len bt (map (fun m => (fst (fst m), false, expand_tree (snd m))) ms)
+  | TXArr bt es => TArr (zlen es) bt (map (fun s => TVal s false) es)
+  | TXObj bt ms => TObj (zlen ms) bt (map (fun m => (fst m, false, TVal (snd m) false)) ms)
+  end.
+
+Lemma expand_tree_leaf t : leaf_tree t = true ->
+  flatten (expand_tree t) = flatten (expand_tree_top t).
+Proof.
+  intro Ht. destruct t as [s r|len bt es|len bt ms|bt es|bt ms]; try discriminate Ht; try reflexivity.
+  destruct s, r; reflexivity.
+Qed.
+
+Lemma flatten_elems_app a b : flatten_elems (a ++ b) = flatten_elems a ++ flatten_elems b.
+Proof. apply flat_map_app. Qed.
+
+Theorem expand_deep_is_flatten : forall t,
+  flatten (expand_tree t) = flat_map expand (flatten t).
+Proof.
+  induction t as [s r|len bt es IH|len bt ms IH|bt es|bt ms] using tree_ind'.
+  - destruct s, r; reflexivity.
+  - cbn [expand_tree]. rewrite !flatten_arr. cbn [flat_map expand app].
+    rewrite flat_map_app. cbn [flat_map expand app]. f_equal. f_equal.
+    induction IH as [|e es He _ IHes]; [reflexivity|].
+    cbn [map]. rewrite !flatten_elems_cons, flat_map_app, He, IHes. reflexivity.
+  - cbn [expand_tree]. rewrite !flatten_obj. cbn [flat_map expand app].
+    rewrite flat_map_app. cbn [flat_map expand app]. f_equal. f_equal.
+    induction IH as [|[[k r] e] ms He _ IHms]; [reflexivity|].
+    cbn [map fst snd] in *. rewrite !flatten_members_cons. cbn [flat_map].
+    rewrite flat_map_app, He, IHms. destruct r; reflexivity.
+  - cbn [flatten flat_map]. rewrite app_nil_r. symmetry. apply expand_xarr_flatten.
+  - cbn [flatten flat_map]. rewrite app_nil_r. symmetry. apply expand_xobj_flatten.
+Qed.
+Print Assumptions expand_deep_is_flatten.
+
+Lemma tree_matches_expand bt t : tree_matches bt (expand_tree t) = tree_matches bt t.
+Proof.
+  destruct t as [s r|len b es|len b ms|b es|b ms]; destruct bt; reflexivity.
+Qed.
+
+Theorem expand_deep_wf : forall t, wf_tree t = true -> wf_tree (expand_tree t) = true.
+Proof.
+  induction t as [s r|len bt es IH|len bt ms IH|bt es|bt ms] using tree_ind'; intro Hwf.
+  - exact Hwf.
+  - cbn [expand_tree]. rewrite wf_arr in *. rewrite len_ok_map, !forallb_map.
+    apply andb_true_iff in Hwf. destruct Hwf as [Hwf H3]. apply andb_true_iff in Hwf. destruct Hwf as [H1 H2].
+    rewrite H1. cbn [andb]. apply andb_true_iff. split.
+    + erewrite forallb_ext_Forall; [exact H2|]. apply Forall_forall. intros x _. apply tree_matches_expand.
+    + apply forallb_forall. intros x Hx. rewrite Forall_forall in IH. apply IH; [exact Hx|].
+      rewrite forallb_forall in H3. apply H3. exact Hx.
+  - cbn [expand_tree]. rewrite wf_obj in *. rewrite len_ok_map, !forallb_map.
+    apply andb_true_iff in Hwf. destruct Hwf as [Hwf H3]. apply andb_true_iff in Hwf. destruct Hwf as [H1 H2].
+    rewrite H1. cbn [andb]. apply andb_true_iff. split.
+    + erewrite forallb_ext_Forall; [exact H2|]. apply Forall_forall. intros x _. cbn [snd]. apply tree_matches_expand.
+    + apply forallb_forall. intros x Hx. rewrite Forall_forall in IH. cbn [fst snd].
+      rewrite forallb_forall in H3. specialize (H3 x Hx). apply andb_true_iff in H3. destruct H3 as [Hk Hx'].
+      rewrite Hk, (IH x Hx Hx'). reflexivity.
+  - apply (expand_tree_wf (TXArr bt es)). exact Hwf.
+  - apply (expand_tree_wf (TXObj bt ms)). exact Hwf.
+Qed.
+Print Assumptions expand_deep_wf.
+
+Theorem expand_deep_value : forall t, value_of (expand_tree t) = value_of t.
+Proof.
+  induction t as [s r|len bt es IH|len bt ms IH|bt es|bt ms] using tree_ind'.
+  - reflexivity.
+  - cbn [expand_tree value_of]. f_equal. rewrite map_map. apply map_ext_Forall. exact IH.
+  - cbn [expand_tree value_of]. f_equal. rewrite map_map. apply map_ext_Forall.
+    eapply Forall_impl; [|exact IH]. intros m Hm. cbn [fst snd]. rewrite Hm. reflexivity.
+  - apply (expand_tree_value (TXArr bt es)).
+  - apply (expand_tree_value (TXObj bt ms)).
+Qed.
+Print Assumptions expand_deep_value.
+
+(* C09 through the adapter: if the producer respects the contract towards the
+   ExtVisitor, the wrapped plain Visitor sees a stream respecting the contract,
+   describing the same value. *)
+Theorem C09_expand_stream : forall evs,
+  contract_ok evs = true -> contract_ok (flat_map expand evs) = true.
+Proof.
+  intros evs H. apply contract_ok_iff in H. destruct H as (t & He & _ & Hwf). subst evs.
+  rewrite <- expand_deep_is_flatten, contract_flatten. apply expand_deep_wf. exact Hwf.
+Qed.
+Print Assumptions C09_expand_stream.
+
+Theorem expand_stream_value : forall evs t,
+  stream_tree evs = Some t ->
+  exists t', stream_tree (flat_map expand evs) = Some t' /\ value_of t' = value_of t.
+Proof.
+  intros evs t H. apply stream_tree_iff in H. destruct H as [He _]. subst evs.
+  rewrite <- expand_deep_is_flatten, stream_tree_flatten. eexists. split; [reflexivity|].
+  rewrite value_of_norm. apply expand_deep_value.
+Qed.
+Print Assumptions expand_stream_value.
+
+(* ... and with a visitor that never fails, that expanded stream is what it gets *)
+Theorem C09_adapter_all : forall evs s,
+  s_fail s = None -> contract_ok evs = true ->
+  exists s', adapter_all s evs = (s', true) /\
+             s_log s' = s_log s ++ flat_map expand evs /\
+             contract_ok (flat_map expand evs) = true.
+Proof.
+  intros evs s Hnone Hc.
+  destruct (adapter_all s evs) as [s' ok] eqn:E. apply C16_adapter_all_exact in E.
+  cbv zeta in E. destruct E as (_ & H2 & _ & H4). unfold all_ok, delivered in *. rewrite Hnone in *.
+  rewrite firstn_all in H2. subst ok. exists s'. split; [reflexivity|]. split; [exact H2|].
+  apply C09_expand_stream. exact Hc.
+Qed.
+Print Assumptions C09_adapter_all.
